@@ -127,6 +127,7 @@ func (u *Unit) execRangeMap(n *ast.RangeStmt, mt *types.Map, x Term, lb *Block, 
 	st.assume(fmt.Sprintf("(forall ((k %s)) (not (select %s k)))", ks, emptyVis))
 	st.named["rangevisited"] = Term{S: emptyVis, Sort: visSort}
 	u.checkInvariants(lb, st, pos, "init", nil)
+	u.checkLoopFrameInit(lb, st)
 	head := st.clone()
 	he := u.newEv(head)
 	u.havocLoop(he, n)
